@@ -87,7 +87,9 @@ pub fn blocks(thorough: bool) -> Vec<Block> {
         b.push(Block::new(crate::props::c05::u_rep_single(&["\u{e9}", "\u{1f4a9}", "a"], 8), esc(&[R, R | X, R | I, R | G]), "{e, e+u} x {r, r+x, r+i, r+g}"));
         b.push(Block::new(crate::props::c05::u_rep_single(&["\u{10000}", "\u{10ffff}", "\u{ffff}", "\u{80}"], 6), esc(&[R, R | X]), "{e, e+u} x {r, r+x}"));
         b.push(Block::new(Universe::new("U_pairs{e9,1f4a9,a}^<=4", &["\u{e9}", "\u{1f4a9}", "a"], 4, 2, false), esc(&[R]), "{e, e+u} x r"));
-        b.push(Block::new(Universe::new("U_adv(A_esc)", A_ESC, 3, 2, true), esc(&bases8), "{e, e+u} x 8 bases"));
+        b.push(Block::new(Universe::new("U_adv(A_esc)", A_ESC, 2, 2, true), esc(&bases8), "{e, e+u} x 8 bases"));
+        b.push(Block::new(Universe::new("U_adv(A_esc)", A_ESC, 3, 1, false), esc(&bases8), "{e, e+u} x 8 bases"));
+        b.push(Block::new(Universe::new("U_adv(A_esc)", A_ESC, 2, 3, false), esc(&[0, R]), "{e, e+u} x {{}, r}"));
         b.push(Block::new(Universe::new("U_adv(A_esc+a+U+0301)", &mix, 2, 2, true), esc(&bases8), "{e, e+u} x 8 bases"));
         b.push(Block::new(Universe::new("U_adv(A_gc)", A_GC, 2, 2, true), esc(&bases8), "{e, e+u} x 8 bases"));
         b.push(Block::new(Universe::new("U_adv(A_gc)", A_GC, 3, 1, false), esc(&[0, R, X]), "{e, e+u} x {{}, r, x}"));
